@@ -74,12 +74,7 @@ def run(ctx):
         den = union_len(comm)
         num = both_len(comm, comp)
         if ctx.mode == "sym":
-            pv = provenance(p)
-            if pv is not None and pv[0] == 100 and pv[3] == 2:
-                # strong linear form: numerator and denominator separately
-                ok = ctx.prove(sand(pv[1] == num, pv[2] == den), "overlap-pct", {"rank": int(r)})
-            else:
-                ok = ctx.prove(close(p * den, 100 * num, 0.005 * den), "overlap-pct", {"rank": int(r)})
+            ctx.prove_ratio(p, num, den, "overlap-pct", {"rank": int(r)})
             ctx.prove(sand(num >= 0, num <= den), "pct-in-range", {"rank": int(r)})
             ctx.nontrivial(sand(num > 0, num < den))
         else:
